@@ -385,6 +385,25 @@ def classify(act, prev, d):
     return "replay:v12:%s:%s" % (act["name"], ",".join(sorted(d)))
 
 
+def other_choice(act, prev, d, real, k):
+    """The specification leaves open which of the least busy connections a borrow picks; did the code just
+    resolve that choice differently from the behaviour being replayed (and legally)?"""
+    if act["name"] not in ("BorrowStart", "BorrowTake") or "on" not in d:
+        return False
+    r = act["r"]
+    pv = spec_view(prev)
+    conns, infl, got = pv["conns"], pv["inflight"], real["on"][r]
+    if not conns or got not in conns:
+        return False
+    least = {c for c in conns if infl[c] == min(infl[x] for x in conns)}
+    if act["name"] == "BorrowStart":
+        return set(d) <= {"on"} and got in least and real["st"][r] == "picked"
+    c = pv["on"][r]
+    if c != 0 and infl[c] < k["MaxId"]:
+        return False                     # the picked connection had room: no choice to make
+    return set(d) <= {"on", "inflight"} and got in least and infl[got] < k["MaxId"] and real["st"][r] == "borrowed"
+
+
 def harness_act(act):
     """Spec action record -> harness action (tasks are named in field r)."""
     return act
@@ -408,7 +427,10 @@ def replay(constants, states, repair=True):
                 return {"step": i, "action": act, "signature": "replay:v12:%s:exception:%s" % (act["name"], type(ex).__name__),
                         "diff": {"_exception": {"spec": "no exception", "code": "%s: %s" % (type(ex).__name__, ex)}}}, met
             sv = spec_view(s)
-            d = diff(sv, h.project())
+            real = h.project()
+            d = diff(sv, real)
+            if d and other_choice(act, states[i - 1], d, real, constants):
+                return {"step": i, "action": act, "choice": True, "diff": d, "signature": "choice"}, met
             if d:
                 sig = classify(act, states[i - 1], d)
                 rec = {"step": i, "action": act, "diff": d, "signature": sig}
